@@ -628,6 +628,16 @@ def build_raw(spec):
     coords = dict(coords)
     attrs = dict(attrs)
     attrs.update(spec.get("attrs") or {})
+    if spec.get("coord_dtype") == "f4":
+        # single precision geometry (very common in model output), wherever float32 holds the
+        # values exactly, so that the reference geometry stays exact
+        for target in (data_vars, coords):
+            for key, (dims, arr, var_attrs) in list(target.items()):
+                arr = numpy.asarray(arr)
+                if arr.dtype == numpy.float64 and "cf_role" not in var_attrs:
+                    cast = arr.astype(numpy.float32)
+                    if numpy.array_equal(cast.astype(numpy.float64), arr, equal_nan=True):
+                        target[key] = (dims, cast, var_attrs)
 
     t = spec.get("time")
     if t is not None:
